@@ -6,7 +6,7 @@ HERE = os.path.dirname(os.path.dirname(os.path.abspath(__file__)))
 d = json.load(open(os.path.join(HERE, 'known_findings.json')))
 rows = []
 for f in d['findings']:
-    if f['status'] != 'fixed':
+    if f['status'] != 'fixed' or (len(sys.argv) > 1 and not any(a in (f['commit'], f['property']) for a in sys.argv[1:])):
         continue
     c, pid = f['commit'], f['property']
     rev = subprocess.run(['git', '-C', '/repo', 'diff', c, c + '^', '--', 'static_frame/core'], capture_output=True, text=True).stdout
